@@ -10,9 +10,10 @@ secondary_header_bytes=sh) through a simulated socket that delivers exactly one 
 recv (primary configuration: every output and warning is attributable to one arrival), or as
 bytes / simulated disk file / fragmented socket (whole output sequence compared).
 
-Oracle: a 25-line per-APID reference model, run as a nondeterministic acceptor so that the one
-case the statement leaves open (an UNSEGMENTED packet arriving while a group of its APID is
-open: does the group survive?) is accepted under either reading and under nothing else.
+Oracle: a 25-line per-APID reference model, run as an acceptor over (position in the output list,
+per-APID state) configurations. An UNSEGMENTED packet arriving while a group of its APID is open
+is parsed alone and leaves the group untouched (the statement enumerates the cases in which
+packets are dropped, and this is not one of them).
 """
 import io
 import logging
@@ -44,8 +45,8 @@ COMPONENTS = {
              "SimSocket delivering one arrival per recv", "SimRaw disk", "25-line per-APID reassembly reference model"],
 }
 ASSUMPTIONS = [
-    "an UNSEGMENTED packet arriving while a group of the same APID is open is accepted under both readings (group "
-    "survives / group is abandoned); everything else has exactly one accepted behaviour",
+    "an UNSEGMENTED packet arriving while a group of the same APID is open is parsed alone and does not end that group "
+    "(the statement's list of dropped packets does not include this case); every history has exactly one accepted behaviour",
     "a 'warning' is a warnings.warn() of any category and text, or a WARNING-level log record of a space_packet_parser.xtce "
     "logger; warnings are required only at arrivals the model drops with a warning: CONT/LAST with no "
     "open group and a LAST closing a group with a sequence gap; only in the one-arrival-per-recv configuration, where a "
@@ -96,9 +97,10 @@ def transitions(state, i, flag, consecutive):
     """state: None (no open group) or tuple of arrival indices. Returns list of
     (new_state, emitted_indices_or_None, warning_required)."""
     if flag == U:
-        if state is None:
-            return [(None, (i,), False)]
-        return [(state, (i,), False), (None, (i,), False)]      # the one open question: both readings
+        # an unsegmented packet is parsed alone and does not touch the group of its APID: the statement lists every
+        # case in which packets are dropped (orphans, gapped groups, a group superseded by a new FIRST) and an
+        # interposed UNSEGMENTED packet is not among them, so FIRST .. LAST with consecutive counts is still one packet
+        return [(state, (i,), False)]
     if flag == F:
         return [((i,), None, False)]
     if state is None:
